@@ -5,6 +5,7 @@ import (
 	"io"
 	"os"
 	"path/filepath"
+	"strings"
 	"sync"
 	"syscall"
 	"time"
@@ -97,6 +98,15 @@ func (fs *LocalFS) CreateFile(n NodeFile) error {
 	if err := os.RemoveAll(dst); err != nil && !os.IsNotExist(err) {
 		return err
 	}
+	// If that removed a directory written earlier, its mtime and those of the
+	// directories below it must not be applied to whatever has that name later
+	kept := fs.dirTimes[:0]
+	for _, d := range fs.dirTimes {
+		if d.path != dst && !strings.HasPrefix(d.path, dst+string(filepath.Separator)) {
+			kept = append(kept, d)
+		}
+	}
+	fs.dirTimes = kept
 	f, err := os.OpenFile(dst, os.O_CREATE|os.O_WRONLY|os.O_TRUNC, 0666)
 	if err != nil {
 		return err
